@@ -519,6 +519,10 @@ class Run:
                 cn = asyncio.ensure_future(canceller(tasks, op["cancel"]["idx"], op["cancel"]["at"]))
             await asyncio.gather(*tasks, return_exceptions=True)
             state["done"] = True
+            for t_ in tasks:
+                # simulator control exceptions must not be swallowed by gather
+                if t_.done() and not t_.cancelled() and isinstance(t_.exception(), (SimAbort, SimLivelock)):
+                    raise t_.exception()  # type: ignore[misc]
             if t is not None:
                 await t
             run.ticker_stopped = True
@@ -526,6 +530,8 @@ class Run:
                 await cn
 
         asyncio.run(main())
+        if any(r is None for r in results):
+            raise HarnessError(f"gather: call(s) {[j for j, r in enumerate(results) if r is None]} left no outcome")
         return results
 
     def snapshot_dag(self, d: Any) -> Any:
@@ -603,6 +609,8 @@ class Run:
             for p in self.sim.parts:
                 if isinstance(p.error, SimLivelock):
                     self.status, self.detail = "livelock", str(p.error)
+            if self.rt.livelock is not None and self.status == "ok":
+                self.status, self.detail = "livelock", self.rt.livelock
         finally:
             try:
                 self.sim.shutdown()
